@@ -934,6 +934,12 @@ pub fn load_config_from_string_for_test(cfg: &str) -> Result<SharedConfig, Error
     load_config_from_string(cfg)
 }
 
+/// Verification hook: the private string loader (the public loader only takes a path).
+#[cfg(erbium_verif)]
+pub fn verif_load_config_from_string(cfg: &str) -> Result<SharedConfig, Error> {
+    load_config_from_string(cfg)
+}
+
 /* We support reading configs from a yaml file, _or_ a program (eg a shell script?) that outputs
  * yaml on stdout.
  *
